@@ -62,38 +62,35 @@ Definition refuted (c : subcmd) (args : list string) (p : pkg) (k : subcmd -> cf
   exists fl vals, parse_common c args = POk fl vals /\ wf_pkgb p = true /\ k c fl p = true /\
                   meets c p (run id_oracle c fl p) (spec c fl p) = false.
 
+(* the two findings that are still open *)
 Theorem refuted_star_no_generate_line : refuted CNew ["-type=*"] w_star k_star_no_generate_line.
 Proof. do 2 eexists. split; [reflexivity|]. vm_compute. auto. Qed.
 
-Theorem refuted_enum_missing_silent : refuted CEnum ["-type=Color,Nope"] w_enum k_enum_missing_silent.
-Proof. do 2 eexists. split; [reflexivity|]. vm_compute. auto. Qed.
-
 Theorem refuted_star_sep_file : refuted CNew ["-type=*"; "-sep"] w_starsep k_star_sep_file.
-Proof. do 2 eexists. split; [reflexivity|]. vm_compute. auto. Qed.
-
-Theorem refuted_local_type_listed : refuted CNew ["-file=a.go"] w_local k_local_type_listed.
-Proof. do 2 eexists. split; [reflexivity|]. vm_compute. auto. Qed.
-
-Theorem refuted_lower_collision : refuted CNew ["-type=Order,ORDER"] w_collide k_lower_collision.
 Proof. do 2 eexists. split; [reflexivity|]. vm_compute. auto. Qed.
 
 (* what the literal model does on the witnesses (the behaviour replayed against /repo on every run) *)
 Example w_star_behaviour :
   shoot_cli id_oracle CNew ["-type=*"] w_star = COut (Done [(".shootnew.go", ["Alpha"; "Order"])] [".shootnew.go"]).
 Proof. reflexivity. Qed.
-Example w_enum_behaviour :
-  shoot_cli id_oracle CEnum ["-type=Color,Nope"] w_enum =
-  COut (Done [("a.shootenum.color.go", ["Color"])] ["a.shootenum.color.go"]).
-Proof. reflexivity. Qed.
 Example w_starsep_behaviour :
   shoot_cli id_oracle CNew ["-type=*"; "-sep"] w_starsep =
   COut (Done [("a.shootnew.alpha.go", ["Alpha"]); ("a.shootnew.order.go", ["Order"])]
              ["a.shootnew.alpha.go"; "a.shootnew.order.go"]).
 Proof. reflexivity. Qed.
-Example w_local_behaviour :
-  shoot_cli id_oracle CNew ["-file=a.go"] w_local = COut (Done [("a.shootnew.go", ["Alpha"; "Loc"])] ["a.shootnew.go"]).
-Proof. reflexivity. Qed.
-Example w_collide_behaviour :
-  shoot_cli id_oracle CNew ["-type=Order,ORDER"] w_collide =
-  COut (Done [("a.shootnew.order.go", ["ORDER"])] ["a.shootnew.order.go"]).
-Proof. reflexivity. Qed.
+
+(* the three repaired findings: the witnesses now behave as the reading demands
+   (the model follows the repaired code; the old behaviour is replayed against
+   /repo as a regression test on every run) *)
+Example w_enum_repaired :
+  shoot_cli id_oracle CEnum ["-type=Color,Nope"] w_enum = COut (Failed DgEnumNone) /\
+  spec CEnum (flags_of CEnum ["-type=Color,Nope"] ["Color"; "Nope"] true "" true) w_enum = EFail.
+Proof. split; reflexivity. Qed.
+Example w_local_repaired :
+  shoot_cli id_oracle CNew ["-file=a.go"] w_local = COut (Done [("a.shootnew.go", ["Alpha"])] ["a.shootnew.go"]) /\
+  shoot_cli id_oracle CNew ["-type=Loc"] w_local = COut (Failed DgNotExists).
+Proof. split; reflexivity. Qed.
+Example w_collide_repaired :
+  shoot_cli id_oracle CNew ["-type=Order,ORDER"] w_collide = COut (Failed DgSameFile) /\
+  spec CNew (flags_of CNew ["-type=Order,ORDER"] ["Order"; "ORDER"] true "" true) w_collide = EFail.
+Proof. split; reflexivity. Qed.
